@@ -25,17 +25,18 @@ HARNESSES = [dict(name="pppoe", pkg="./internal/pppoe/", test="TestVerifC02", ti
 def route(case):
     return "ipoe" if case.startswith("B ") else "pppoe"
 def _v(fixed):
-    return "v" + "".join("0" if i in fixed else "1" for i in range(1, 10))
+    return "v" + "".join("0" if i in fixed else "1" for i in range(1, 11))
 
 
 # Defect flags 1..9 (see Model.v).  Fixed in /repo HEAD (flag off everywhere, a regression is a VIOLATION):
 # 1 constant fall-back (24c9504), 3 expiry take-over (58e16d0), 4 unresolved answers (d5fadd1), 6 pending ACK
 # (b04c868), 7 nil pool (d114f02).  Still `known:` - 2 unchecked release, 5 untracked out-of-pool statics, 8 restore
-# keeps a conflicting address, 9 VRF-blind containment walk / pool override.
+# keeps a conflicting address, 9 VRF-blind containment walk / pool override, 10 AAA prefix of a length other than the
+# pool's delegated length accepted although it overlaps the pool network.
 # Variants tried, in order: repaired (no defect); head (= Model.Head, the four open findings); head with one of the
 # open findings fixed (so that fixing them one at a time keeps the check green).
 FIXED = {1, 3, 4, 6, 7}
-VARIANTS = ["repaired", _v(FIXED)] + [_v(FIXED | {i}) for i in (2, 5, 8, 9)]
+VARIANTS = ["repaired", _v(FIXED)] + [_v(FIXED | {i}) for i in (2, 5, 8, 9, 10)]
 MODEL_NEEDS_IMPL = True
 RULE = ("stage A (function level, PPPoE SessionState + IPoE resolve/provider path): random configurations of 1-3 "
         "IPv4 pools (0-3 addresses, exclusions, two profiles, VRFs 0/1, disjoint per VRF, sometimes the same subnet "
@@ -140,9 +141,15 @@ def gen_one(rng):
         r = rng.random()
         if r < 0.7 or not poolsd:
             return "-"
-        if r < 0.93:
+        if r < 0.88:
             p = rng.choice(poolsd)
             return "%d/64" % (p[3] + (rng.randint(0, (1 << (64 - p[4]))) << 64))
+        if r < 0.95:
+            # a prefix of another length that covers (/56, /60) or lies inside (/72) the pool network
+            p = rng.choice(poolsd)
+            l = rng.choice([56, 60, 72])
+            a = p[3] if l < 64 else p[3] + (rng.randint(0, 1) << 64) + (1 << 56)
+            return "%d/%d" % (a >> (128 - l) << (128 - l), l)   # canonical (ParseCIDR masks the host bits)
         return "%d/64" % (V6BASE + (0x999 << 64))
 
     def ov(pl):
@@ -699,8 +706,27 @@ def classify(case, impl, model):
     return "G", "implementation and model disagree;" + where
 
 
+def pd_len_overlap(case, k):
+    """op #k carries an AAA prefix whose length is not the delegated length of a PD pool whose network it overlaps"""
+    ops = case_ops(case)
+    if not (0 < k <= len(ops)):
+        return False
+    toks = [t for t in ops[k - 1] if "/" in t and t.replace("/", "").isdigit()]
+    cfg = segs(case)[0].split()
+    pds = [(int(cfg[i + 4]), int(cfg[i + 5]), int(cfg[i + 6])) for i, t in enumerate(cfg) if t == "PD"]
+    for t in toks:
+        a, l = (int(x) for x in t.split("/"))
+        sz = 1 << (128 - l)
+        lo = a // sz * sz
+        for base, nb, pl in pds:
+            if l != pl and lo < base + (1 << (128 - nb)) and base < lo + sz:
+                return True
+    return False
+
+
 OPEN = {2: "release-frees-foreign-lease", 5: "static-outside-pools-untracked",
-        8: "restore-keeps-conflicting-address", 9: "reserve-ignores-vrf"}
+        8: "restore-keeps-conflicting-address", 9: "reserve-ignores-vrf",
+        10: "pd-static-prefix-overlaps-pool"}
 
 
 def signature(case, impl, models):
@@ -715,6 +741,10 @@ def signature(case, impl, models):
         # implementation and Repaired model agree up to here, and the state they agree on violates the property
         # (monitor in ocaml/C02_run.ml, run on every case): never a known finding
         return "monitor:" + d0[2].split(" | !dup ")[1].split(":")[0]
+    if d0 and pd_len_overlap(case, d0[0]) and impl != models.get(_v(FIXED | {10})):
+        # the op supplies an AAA prefix that is no delegation of any PD pool (other length) but overlaps a pool network:
+        # the code accepts it (d5: untracked, d10: not seen as a conflict), the Repaired model refuses it
+        return OPEN[10]
     if impl == models.get(VARIANTS[1]) and impl != models.get(_v(FIXED | {8})):
         # restore kept an address whose re-reservation conflicted: needs an earlier open finding to produce the two
         # images with one address, so it is never the FIRST difference; named whenever the trace depends on it
